@@ -93,3 +93,210 @@ Example C05_unit_app_total : apps_total unit unit_app_ops.
 Proof. exact unit_apps_total. Qed.
 Example C05_default_params_valid : builder_validb default_params = true.
 Proof. reflexivity. Qed.
+
+(* ------------------------------------------------------------------------------------------ *)
+(* The application side: DP master, live list and DP scanner attached (Model/AppsGlue.v: the app_ops
+   records of the three applications and their sum `any_app`, so one application list can hold any
+   mixture; Proofs/C05Apps.v).
+
+   `apps_total` above asks every callback to return on EVERY argument; the real applications do not (a
+   reply for an address nobody asked panics: C05_dp_reply_outside_contract, C18_panic_outside_contract).
+   They are total under the FdlApplication contract.  `apps_contract A ops AI AW`: with representation
+   invariant AI and "waiting for the reply from da" predicate AW,
+     - transmit_telegram is Ok from every AI state, at any time, keeps AI, its telegram has at most 65536
+       bytes, and when it expects a reply from da the application is then waiting for da (AW);
+     - receive_reply(addr, t) is Ok and keeps AI when the application waits for addr and t is what the
+       station delivers (reply_ok: SC, or a response from addr to this station - C15_reply_filter);
+     - handle_timeout(addr) likewise.
+   `AppsInv f apps` is the tie between station and applications that makes the contract available inside
+   poll: every application satisfies AI, and while the station is in AwaitDataResponse addr the
+   application whose turn it is (next_application) waits for addr.  Rep /\ AppsInv is inductive. *)
+From PB Require Import Telegram DpMaster ScanBase LiveList Scan AppsGlue C15Proofs C05Apps.
+
+(* generic: one poll from ANY station state satisfying Rep and ANY application states satisfying AppsInv *)
+Theorem C05_rep_step_contract : forall (A : Type) (ops : app_ops A) (AI : A -> Prop) (AW : A -> Z -> Prop),
+  apps_contract A ops AI AW ->
+  forall (f : fdl) (now : Z) (pin : phy_in) (apps : list A),
+  Rep (length apps) f -> AppsInv A AI AW f apps -> time_ok now -> all_bytes (rx pin) ->
+  exists f' o apps' c, Fdl.poll ops f now pin apps = Ok (f', o, apps', c) /\
+    Rep (length apps) f' /\ AppsInv A AI AW f' apps' /\ length apps' = length apps.
+Proof. exact poll_rep_stepA. Qed.
+Print Assumptions C05_rep_step_contract.
+
+(* ---- DP master.  DpRep m: every occupied slot has index <= 255 and holds a peripheral with a 7-bit
+   address, a frame count bit that is not Inactive, and an output image / Chk_Cfg data / user parameters
+   that fit one telegram (`fits`: <= 246 / 244 / 237 bytes); last_global_control is a time in [0, 2^62).
+   ANY number of slots and of peripherals (none included), any occupancy pattern, cycle state, operating
+   state (Stop included), retry counters, peripheral states, pending events.
+   transmit_telegram: Ok from every such state, for any parameters the builder can produce, any time, either
+   priority; DpRep holds again; neither the u8 retry counter overflows, nor does FrameCountBit::cycle see
+   Inactive, nor does the event assertion fire (F11 fix), nor is the slot loop's fuel |slots| + 2
+   exhausted (C14_turn_ends); if a reply from da is expected the master is then waiting for da. *)
+Theorem C05_dp_transmit_total : forall (pa : params) (m : dpm) (now : Z) (hp : bool),
+  builder_valid pa -> time_ok now -> DpRep m ->
+  exists m' r, dp_transmit pa tx_buffer_size m now hp = Ok (m', r) /\ DpRep m' /\
+    match r with
+    | Some (wire, er) => Z.of_nat (length wire) <= 65536 /\ forall da, er = Some da -> dp_waiting m' da
+    | None => True
+    end.
+Proof. exact dp_transmit_total. Qed.
+Print Assumptions C05_dp_transmit_total.
+
+(* receive_reply for the address the master waits for, with ANY telegram that is not a token and not a
+   request (any SAPs, status, PDU bytes and length): Ok, DpRep again (copy_from_slice is guarded by the
+   length comparison, is_response().unwrap() and the token arm are excluded by the reply filter);
+   handle_timeout is a no-op. *)
+Theorem C05_dp_receive_reply_total : forall (m : dpm) (addr : Z) (t : telegram),
+  DpRep m -> dp_waiting m addr -> reply_shape t ->
+  exists m', dp_receive_reply m addr t = Ok m' /\ DpRep m'.
+Proof. exact dp_receive_reply_total. Qed.
+Print Assumptions C05_dp_receive_reply_total.
+
+Theorem C05_dp_master_total : apps_contract dpm dp_app_ops DpRep dp_waiting.
+Proof. exact dp_contract. Qed.
+Print Assumptions C05_dp_master_total.
+
+(* user calls between polls keep DpRep and keep a waiting master waiting: take_last_events, enter_state
+   (any state; the todo!() of enter_stop / enter_clear comes after the assignments), request_diagnostics,
+   writing the output image (same length); add keeps DpRep *)
+Theorem C05_dp_user_calls : 
+  user_ok dpm DpRep dp_waiting u_take_last_events /\
+  (forall s, user_ok dpm DpRep dp_waiting (u_enter_state s)) /\
+  (forall h, user_ok dpm DpRep dp_waiting (u_request_diagnostics h)) /\
+  (forall h q, user_ok dpm DpRep dp_waiting (u_write_q h q)).
+Proof. exact dp_user_calls_ok. Qed.
+Print Assumptions C05_dp_user_calls.
+
+Theorem C05_dp_add_keeps_rep : forall (m : dpm) (p : periph), DpRep m -> periph_ok p ->
+  match dp_add m p with Ok (m', _) => DpRep m' | _ => True end.
+Proof. exact dp_add_rep. Qed.
+Print Assumptions C05_dp_add_keeps_rep.
+
+Theorem C05_dp_new_rep : forall (k : nat) (owned : bool), DpRep (dp_new k owned).
+Proof. exact DpRep_new. Qed.
+Print Assumptions C05_dp_new_rep.
+
+(* Storages filled front to back (`dense`: what DpMaster::new + add produce; sparse storages exist only
+   through the verif-hooks constructor).  DpRepD = DpRep /\ dense is kept by all callbacks (they never
+   change which slots are occupied) and lets add() be called at ANY time, also while a reply is
+   outstanding: the new peripheral lands behind the one the cycle index points to, so the reply is
+   still routed to the peripheral that was asked (no `unreachable!()` in receive_reply). *)
+Theorem C05_dp_master_total_dense : apps_contract dpm dp_app_ops DpRepD dp_waiting.
+Proof. exact dpd_contract. Qed.
+Print Assumptions C05_dp_master_total_dense.
+
+Theorem C05_dp_user_calls_dense :
+  user_ok dpm DpRepD dp_waiting u_take_last_events /\
+  (forall s, user_ok dpm DpRepD dp_waiting (u_enter_state s)) /\
+  (forall h, user_ok dpm DpRepD dp_waiting (u_request_diagnostics h)) /\
+  (forall h q, user_ok dpm DpRepD dp_waiting (u_write_q h q)) /\
+  (forall p, periph_ok p -> user_ok dpm DpRepD dp_waiting (u_add p)).
+Proof. exact dp_user_calls_dense_ok. Qed.
+Print Assumptions C05_dp_user_calls_dense.
+
+Theorem C05_dp_new_rep_dense : forall (k : nat) (owned : bool), DpRepD (dp_new k owned).
+Proof. exact DpRepD_new. Qed.
+Print Assumptions C05_dp_new_rep_dense.
+
+(* the size preconditions are necessary (an output image of 247 bytes panics in the serializer; the same
+   on the crate), and outside the contract receive_reply does panic *)
+Theorem C05_dp_oversize_output_panics :
+  dp_transmit default_params tx_buffer_size oversize_master 0 true = Panic SiteAssertLen /\ ~ DpRep oversize_master.
+Proof. exact oversize_output_panics. Qed.
+Print Assumptions C05_dp_oversize_output_panics.
+
+Theorem C05_dp_reply_outside_contract :
+  dp_receive_reply (dp_new 1 false) 5 TShortConf = Panic SiteUnreachable /\ DpRep (dp_new 1 false).
+Proof. exact dp_receive_reply_outside_contract. Qed.
+Print Assumptions C05_dp_reply_outside_contract.
+
+(* ---- live list and scanner: invariant = cursor in 0..125 (any station set, any uncollected event);
+   waiting for da = da in 0..125.  (C18_no_panic / C18_no_panic_scanner state the same for the scripted
+   driver of Model/ScanBase.v with take_last_event after every callback.) *)
+Theorem C05_live_list_total : apps_contract ll ll_app_ops ll_ok (fun _ => scan_waiting).
+Proof. exact ll_contract. Qed.
+Print Assumptions C05_live_list_total.
+
+Theorem C05_scanner_total : apps_contract scanner sc_app_ops sc_ok (fun _ => scan_waiting).
+Proof. exact sc_contract. Qed.
+Print Assumptions C05_scanner_total.
+
+(* ---- the composition.  Application lists over `any_app` = any mixture of DP masters, live lists,
+   scanners and unit applications (poll = list of one, poll_multi = any list, none included).
+   any_ok: DpRepD for a master, ll_ok / sc_ok for live list / scanner. *)
+Theorem C05_any_app_total : apps_contract any_app any_app_ops any_ok any_waiting.
+Proof. exact any_contract. Qed.
+Print Assumptions C05_any_app_total.
+
+Theorem C05_rep_step_with_apps : forall (f : fdl) (now : Z) (pin : phy_in) (apps : list any_app),
+  Rep (length apps) f -> AppsInv any_app any_ok any_waiting f apps -> time_ok now -> all_bytes (rx pin) ->
+  exists f' o apps' c, Fdl.poll any_app_ops f now pin apps = Ok (f', o, apps', c) /\
+    Rep (length apps) f' /\ AppsInv any_app any_ok any_waiting f' apps' /\ length apps' = length apps.
+Proof. exact poll_with_apps_step. Qed.
+Print Assumptions C05_rep_step_with_apps.
+
+(* All histories: a new station with builder-valid parameters; ANY list of applications in states
+   satisfying their invariants (e.g. new ones); any sequence of polls (any times in range, any PHY
+   answers, any received bytes), set_online / set_offline, and user calls on single application objects
+   between polls (any function that keeps the invariant and keeps a waiting application waiting, e.g.
+   C05_dp_user_calls_dense through on_dp: take_last_events, enter_state, request_diagnostics, output
+   writes, add): every call returns Ok - no panic in the station or in any callback,
+   no loop bound exhausted - and the invariants hold at the end. *)
+Theorem C05_no_panic_with_apps : forall (p : params) (apps : list any_app) (evs : list any_ev),
+  builder_valid p -> Forall any_ok apps -> Forall any_ev_ok evs ->
+  exists f0 f' apps', fdl_new p = Ok f0 /\ run_any f0 apps evs = Ok (f', apps') /\
+    Rep (length apps) f' /\ Forall any_ok apps' /\ length apps' = length apps.
+Proof. exact no_panic_with_apps. Qed.
+Print Assumptions C05_no_panic_with_apps.
+
+Theorem C05_on_dp_user_ok : forall g, user_ok dpm DpRepD dp_waiting g -> user_ok any_app any_ok any_waiting (on_dp g).
+Proof. exact on_dp_ok. Qed.
+Print Assumptions C05_on_dp_user_ok.
+
+(* poll(now, phy, &mut app) with one application of each kind *)
+Theorem C05_no_panic_dp_master : forall (p : params) (m : dpm) (evs : list (app_ev dpm)),
+  builder_valid p -> DpRep m -> Forall (app_ev_ok dpm DpRep dp_waiting) evs ->
+  exists f0 f' m', fdl_new p = Ok f0 /\ run_app_events dpm dp_app_ops f0 [m] evs = Ok (f', [m']) /\
+    Rep 1 f' /\ DpRep m'.
+Proof. exact no_panic_dp_master. Qed.
+Print Assumptions C05_no_panic_dp_master.
+
+Theorem C05_no_panic_live_list : forall (p : params) (s : ll) (evs : list (app_ev ll)),
+  builder_valid p -> ll_ok s -> Forall (app_ev_ok ll ll_ok (fun _ => scan_waiting)) evs ->
+  exists f0 f' s', fdl_new p = Ok f0 /\ run_app_events ll ll_app_ops f0 [s] evs = Ok (f', [s']) /\
+    Rep 1 f' /\ ll_ok s'.
+Proof. exact no_panic_live_list. Qed.
+Print Assumptions C05_no_panic_live_list.
+
+Theorem C05_no_panic_scanner : forall (p : params) (s : scanner) (evs : list (app_ev scanner)),
+  builder_valid p -> sc_ok s -> Forall (app_ev_ok scanner sc_ok (fun _ => scan_waiting)) evs ->
+  exists f0 f' s', fdl_new p = Ok f0 /\ run_app_events scanner sc_app_ops f0 [s] evs = Ok (f', [s']) /\
+    Rep 1 f' /\ sc_ok s'.
+Proof. exact no_panic_scanner. Qed.
+Print Assumptions C05_no_panic_scanner.
+
+(* non-vacuity: a master with two peripherals (of four slots), a new live list and scanner satisfy the
+   invariants; on a token-holding station (Rep, AppsInv) 18 polls of the model ask all three in turn:
+   (application, 0 declined / 1 sent / 2 reply / 3 time-out, addressed station) *)
+Example C05_demo_apps_ok : DpRepD demo_master /\ occupied demo_master = [0%nat; 1%nat] /\
+  Forall any_ok [AppDp demo_master; AppLl ll_new; AppSc sc_new; AppUnit].
+Proof. exact demo_master_rep. Qed.
+Example C05_demo_station_ok : forall f0, fdl_new demo_params = Ok f0 ->
+  Rep 3 (demo_station f0) /\ AppsInv any_app any_ok any_waiting (demo_station f0) demo_apps.
+Proof. exact demo_station_rep. Qed.
+Example C05_demo_run :
+  match fdl_new demo_params with
+  | Ok f0 =>
+      match polls (demo_station f0) demo_apps demo_polls with
+      | Ok (f, apps, calls) =>
+          map short calls =
+            [(0, 1, None); (0, 1, Some 8); (0, 2, Some 8); (0, 1, Some 9); (0, 3, Some 9); (0, 0, None);
+             (1, 1, Some 0); (1, 3, Some 0); (1, 0, None); (2, 1, Some 0); (2, 3, Some 0); (2, 0, None);
+             (0, 1, Some 9); (0, 3, Some 9); (0, 0, None); (1, 1, Some 1); (1, 3, Some 1); (1, 0, None);
+             (2, 1, Some 1)] /\
+          f_state f = AwaitDataResponse 1 200000 (Some 0%nat)
+      | _ => False
+      end
+  | _ => False
+  end.
+Proof. exact demo_run. Qed.
